@@ -124,7 +124,8 @@ def gen_body_spec(rng: random.Random, max_parts: int = 6, maxlen: int = 300, sty
         "lead_nl": rng.random() < 0.2,
         "epilogue": rng.choice(["", "", "", "epilogue", "--", "\r\n" if style == "crlf" else ""]),
         "final_nl": rng.random() < 0.8,
-        "padding": rng.choice(["", "", "", " ", "\t ", "   "]),
+        # transport padding after a boundary (RFC 2046 LWSP), also longer than the decoder's look-behind window
+        "padding": rng.choice(["", "", "", "", " ", "\t ", "   ", " " * 7, " \t" * 6, " " * 40]),
         "parts": gen_parts(rng, bb, style, max_parts, maxlen),
     }
     if ("--" + boundary) in spec["preamble"]:
